@@ -594,3 +594,52 @@ Qed.
 End Full.
 
 Print Assumptions x_struct_roundtrip.
+
+(* ---------- similar structs are indistinguishable to Validate and Serialize ---------- *)
+Lemma xr_flat_map_ext_in {A B} (g h : A -> list B) l :
+  (forall a, In a l -> g a = h a) -> flat_map g l = flat_map h l.
+Proof.
+  induction l as [|a t IH]; intros H; [reflexivity|]. cbn [flat_map].
+  rewrite (H a (or_introl eq_refl)), IH; [reflexivity|]. intros; apply H; now right.
+Qed.
+
+Section Sim.
+Variable words : list (string * bool).
+Variable pu : units -> string -> option fl.
+Notation xvalidate := (xvalidate words pu).
+Notation xserialize := (xserialize words pu).
+
+Theorem x_struct_sim_paths : forall f e id u props si n n',
+  xrt_desc e props si = true -> xstruct_sim e props si n n' ->
+  (xvalidate (S f) e (XObject id u props (Some si)) n = Ok tt ->
+   xvalidate (S f) e (XObject id u props (Some si)) n' = Ok tt) /\
+  (forall w, xserialize (S f) e (XObject id u props (Some si)) n = Ok w ->
+             xserialize (S f) e (XObject id u props (Some si)) n' = Ok w).
+Proof.
+  intros f e id u props si n n' Hdesc (sv & sv' & A & A' & H).
+  assert (Hf : has_fields si props).
+  { intros np Hin. destruct (xd_sfs e props si Hdesc) as (sfs & _ & Hft).
+    destruct (xd_field e props si sfs np Hft Hin) as (fr & _ & _ & Hfr & _). congruence. }
+  assert (HP : xpresent e si sv' props = xpresent e si sv props).
+  { unfold xpresent. apply xr_flat_map_ext_in. intros np Hin. rewrite (H np Hin). reflexivity. }
+  split.
+  - intros Hv. apply (xvalidate_struct_iff words pu _ _ _ _ _ _ _ Hf) in Hv. destruct Hv as (sv0 & A0 & R & C).
+    rewrite A in A0. inversion A0; subst sv0.
+    apply (xvalidate_struct_iff words pu _ _ _ _ _ _ _ Hf). exists sv'. split; [exact A'|]. split.
+    + rewrite HP. exact R.
+    + intros np x Hin Hx. rewrite (H np Hin) in Hx. exact (C np x Hin Hx).
+  - intros w Hs. rewrite (xserialize_S words pu) in Hs |- *. cbv beta iota zeta in Hs |- *. rewrite A in Hs. rewrite A'.
+    change (fold_left _ props (Ok [])) with (fold_left (fun acc np => a <- acc ;; xsbody words pu f e si sv a np) props (Ok [])) in Hs.
+    change (fold_left _ props (Ok [])) with (fold_left (fun acc np => a <- acc ;; xsbody words pu f e si sv' a np) props (Ok [])).
+    apply bind_ok in Hs as (out & Hout & Hs).
+    apply (xsfold_ok words pu _ _ _ _ _ Hf) in Hout as (ys & Hys & ->).
+    apply bind_ok. exists ([] ++ ys)%list. split; [|exact Hs].
+    apply (xsfold_ok words pu _ _ _ _ _ Hf). exists ys. split; [|reflexivity].
+    unfold xser_entries in Hys |- *.
+    rewrite (xr_flat_map_ext_in _ (fun np => match xfield_value e si sv np with Some x => [(np, x)] | None => [] end)); [exact Hys|].
+    intros np Hin. rewrite (H np Hin). reflexivity.
+Qed.
+
+End Sim.
+
+Print Assumptions x_struct_sim_paths.
